@@ -10,7 +10,7 @@ _reg('jit', ['J1', 'X0', 'X1'])
 _reg('recip', ['R1', 'R2', 'R3'])
 _reg('api', ['H1', 'D2', 'I7'])
 _reg('life', ['H6', 'H7', 'H3', 'K1'])
-_reg('sshash', ['S4', 'D1', 'S1', 'S5'])
+_reg('sshash', ['S4', 'D1', 'S1', 'S5', 'S2', 'S3'])
 _reg('vmloop', ['I8'])
 _reg('foot', ['F1'])
 _reg('frame', ['J3', 'J4', 'J5'])
@@ -65,7 +65,7 @@ PROPS = {
  'C03': dict(level='other', lemmas=['H3', 'H1', 'H6', 'K1'],
    files=['src/randomx.cpp', 'src/virtual_machine.cpp', 'src/virtual_machine.hpp', 'src/vm_compiled_light.cpp', 'src/vm_interpreted_light.cpp', 'src/vm_compiled.cpp', 'src/dataset.hpp', 'src/aes_hash.cpp'],
    explanation='TODO', trusted=[], outside=[]),
- 'C09': dict(level='translation_validation', lemmas=['S4', 'S1', 'S5'],
+ 'C09': dict(level='translation_validation', lemmas=['S4', 'S1', 'S2', 'S3', 'S5'],
    files=['src/superscalar.cpp', 'src/superscalar.hpp', 'src/superscalar_program.hpp', 'src/blake2_generator.cpp', 'src/dataset.cpp', 'src/jit_compiler_x86.cpp', 'src/reciprocal.c', 'doc/specs.md'],
    explanation='TODO', trusted=[], outside=[]),
  'C07': dict(level='other', footprint=True, lemmas=['I4', 'I6', 'I1', 'J1'],
@@ -74,7 +74,7 @@ PROPS = {
  'C14': dict(level='other', footprint=True, max_jobs_per_lemma=6, lemmas=['F1', 'K1', 'H6', 'H7', 'I8', 'J3', 'J5', 'I1', 'J1', 'D1', 'D2', 'S1', 'S4', 'A5', 'A2', 'B2', 'B3', 'H1', 'H3', 'G4'],
    files=['src/randomx.cpp', 'src/virtual_machine.cpp', 'src/dataset.cpp', 'src/vm_interpreted_light.cpp', 'src/vm_compiled_light.cpp', 'src/superscalar.cpp', 'src/soft_aes.cpp', 'src/cpu.cpp', 'src/jit_compiler_x86_static.S'],
    explanation='TODO', trusted=[], outside=[]),
- 'C02': dict(level='other', lemmas=['H1', 'F1', 'I7', 'I8', 'I1', 'B1', 'B2', 'B3', 'B4', 'A1', 'A2', 'A3', 'A5', 'S1', 'S4', 'S5', 'D1', 'G1', 'G4', 'R1', 'G3', 'G5', 'G6', 'B6'],
+ 'C02': dict(level='other', lemmas=['H1', 'F1', 'I7', 'I8', 'I1', 'B1', 'B2', 'B3', 'B4', 'A1', 'A2', 'A3', 'A5', 'S1', 'S2', 'S3', 'S4', 'S5', 'D1', 'G1', 'G4', 'R1', 'G3', 'G5', 'G6', 'B6'],
    files=['doc/specs.md', 'src/randomx.cpp', 'src/virtual_machine.cpp', 'src/vm_interpreted.cpp', 'src/bytecode_machine.cpp', 'src/bytecode_machine.hpp', 'src/aes_hash.cpp', 'src/dataset.cpp', 'src/superscalar.cpp', 'src/blake2_generator.cpp', 'src/argon2_core.c', 'src/argon2_ref.c', 'src/blake2/blake2b.c', 'src/configuration.h'],
    explanation='TODO', trusted=[], outside=[]),
  'C01': dict(level='other', lemmas=['K1', 'J3', 'J1', 'I1', 'I8', 'A2', 'A3', 'A5', 'D1', 'D2', 'S4', 'G2', 'G4', 'H1', 'H7'],
